@@ -647,7 +647,18 @@ def bm_find(vm, o, args, kw):
         sub = [atom_val(x) for x in atoms_of(sub)]
     a = [atom_val(x) for x in atoms_of(o)]
     if any(isinstance(x, Run) for x in a):
-        raise Unsupported('find in bytes with runs')
+        # supported shape: concrete/symbolic bytes followed by trailing runs whose declared fill cannot contain `sub`
+        k = 0
+        while k < len(a) and not isinstance(a[k], Run):
+            k += 1
+        tail = a[k:]
+        if not all(isinstance(x, Run) for x in tail) or not all(isinstance(x, int) for x in sub):
+            raise Unsupported('find in bytes with runs in the middle')
+        for r in tail:
+            fill = vm.run_fill.get(r.rid)
+            if not fill or any(b in fill for b in sub):
+                raise Unsupported('find in an opaque run whose content is not known to exclude the pattern')
+        a = a[:k]
     start = args[1] if len(args) > 1 else 0
     if is_sym(start):
         raise Unsupported('find with symbolic start')
